@@ -15,6 +15,7 @@ type Profile struct {
 	Prefixes   []int // candidate prefix lengths
 	Reopen     bool
 	Staggered  bool // draw activation heights instead of "everything from height 1"
+	Signed     bool // mostly use the signed output families too
 	Halving    bool // sometimes place the chain just below a subsidy halving
 	Retarget   bool // sometimes pre-mine ~2016 blocks with a drawn spacing so that the history crosses a retarget
 	IdlePct    int
@@ -29,7 +30,7 @@ func GenTx(t *rapid.T) TxSpec {
 	}
 	nout := rapid.IntRange(1, 4).Draw(t, "nout")
 	for i := 0; i < nout; i++ {
-		ts.Outs = append(ts.Outs, OutSpec{Fam: rapid.IntRange(0, 8).Draw(t, "fam"), Share: rapid.IntRange(0, 99).Draw(t, "share"), N: rapid.IntRange(0, 999).Draw(t, "n")})
+		ts.Outs = append(ts.Outs, OutSpec{Fam: rapid.IntRange(0, 12).Draw(t, "fam"), Share: rapid.IntRange(0, 99).Draw(t, "share"), N: rapid.IntRange(0, 999).Draw(t, "n")})
 	}
 	ts.Fee = rapid.IntRange(0, 50).Draw(t, "fee")
 	if rapid.IntRange(0, 5).Draw(t, "seqsel") == 0 {
@@ -54,6 +55,9 @@ func GenParams(t *rapid.T, p Profile) ParamSpec {
 	}
 	if len(p.Prefixes) > 0 {
 		ps.Prefix = rapid.SampledFrom(p.Prefixes).Draw(t, "prefix")
+	}
+	if p.Signed {
+		ps.Signed = rapid.IntRange(0, 3).Draw(t, "signed") != 0
 	}
 	if p.Retarget && rapid.IntRange(0, 9).Draw(t, "retarget") == 0 {
 		ps.Prefix = rapid.IntRange(2010, 2016).Draw(t, "rprefix")
